@@ -35,6 +35,7 @@ RULE = (
     "payload => one TransportError and later messages still arrive; faults surface as TransportError; disconnect never raises. Non-trivial "
     "= payload with ';', a prefix with '/', or an error between two good deliveries; distinct = distinct case JSON."
     ' Round 5: deliveries carry QoS 0-2 and the retain flag; payloads contain VT/FF/FS-RS/NEL/LS/PS/CR; `deliver_odd` sends topics with empty or odd levels (the next read is the literal line, a transport error or the following message).'
+    ' Round 6: `cancelled_read k` (reader cancelled after k loop iterations: what it did not return stays owed); BOM/NUL/backslash payloads enumerated.'
 )
 ASSUMPTIONS = [
     "aiomysensors.transport.mqtt.AsyncioClient is replaced by a fake (the name the repository's tests patch); paho and the network are trusted",
